@@ -412,11 +412,16 @@ class _RangeWrapper:
         return chunk
 
     def __next__(self) -> bytes:
-        chunk = self._next()
-        if chunk:
-            return chunk
-        self.end_reached = True
-        raise StopIteration()
+        while True:
+            chunk = self._next()
+
+            if chunk:
+                return chunk
+
+            if self.end_reached:
+                raise StopIteration()
+
+            # An empty chunk from the wrapped iterable is not the end of it.
 
     def close(self) -> None:
         if hasattr(self.iterable, "close"):
